@@ -34,6 +34,7 @@ func profileFor(check, tier, variant string) *CheckDef {
 		d.MinClients, d.MaxClients = 1, 3
 		d.MinOps, d.MaxOps = 6, 20
 		d.Readers, d.ExtRead = true, true
+		d.EarlyClose, d.AcrossClose, d.EarlyCloseOneIn = true, true, 4
 		d.FSOnly = variant != "anydir"
 		if thorough {
 			d.MaxOps = 40
